@@ -306,6 +306,11 @@ func batchModels(all bool) []*batchModel {
 	mkModel("Conv2D-kernel=image", "x", []hx.DimSpec{N, fx(2), fx(3), fx(4)}, batchIO{[]int{1, 2, 3, 4}, 0}, nil, []*onnx.NodeProto{hx.Node("Conv", []string{"x", "Kfull", "kb3"}, []string{"y"}, nil)}, []*onnx.TensorProto{init("Kfull", 3, 2, 3, 4), init("kb3", 3)}, map[string]int{"y": 0}, nil, nil)
 	mkModel("Conv2D-kernel=padded-image", "x", []hx.DimSpec{N, fx(1), fx(2), fx(2)}, batchIO{[]int{1, 1, 2, 2}, 0}, nil, []*onnx.NodeProto{hx.Node("Conv", []string{"x", "Kpad"}, []string{"y"}, []hx.Attr{hx.AInts("pads", 1, 0, 0, 1)})}, []*onnx.TensorProto{init("Kpad", 2, 1, 3, 3)}, map[string]int{"y": 0}, nil, nil)
 	mkModel("Conv1D-kernel=image", "x", []hx.DimSpec{N, fx(2), fx(5)}, batchIO{[]int{1, 2, 5}, 0}, nil, []*onnx.NodeProto{hx.Node("Conv", []string{"x", "K5"}, []string{"y"}, nil)}, []*onnx.TensorProto{init("K5", 2, 2, 5)}, map[string]int{"y": 0}, nil, nil)
+	for _, ap := range []string{"SAME_UPPER", "SAME_LOWER"} {
+		mkModel("Conv2D-"+ap+"-stride2(N,2,5,6)", "x", []hx.DimSpec{N, fx(2), fx(5), fx(6)}, batchIO{[]int{1, 2, 5, 6}, 0}, nil, []*onnx.NodeProto{hx.Node("Conv", []string{"x", "K33", "kb"}, []string{"y"}, []hx.Attr{hx.AStr("auto_pad", ap), hx.AInts("strides", 2, 2)})}, []*onnx.TensorProto{init("K33", 2, 2, 3, 3), init("kb", 2)}, map[string]int{"y": 0}, nil, nil)
+		mkModel("Conv2D-"+ap+"-stride3x2(N,3,4,7)", "x", []hx.DimSpec{N, fx(3), fx(4), fx(7)}, batchIO{[]int{1, 3, 4, 7}, 0}, nil, []*onnx.NodeProto{hx.Node("Conv", []string{"x", "K23"}, []string{"y"}, []hx.Attr{hx.AStr("auto_pad", ap), hx.AInts("strides", 3, 2)})}, []*onnx.TensorProto{init("K23", 2, 3, 2, 3)}, map[string]int{"y": 0}, nil, nil)
+		mkModel("Conv1D-"+ap+"-stride2(N,2,7)", "x", []hx.DimSpec{N, fx(2), fx(7)}, batchIO{[]int{1, 2, 7}, 0}, nil, []*onnx.NodeProto{hx.Node("Conv", []string{"x", "K3"}, []string{"y"}, []hx.Attr{hx.AStr("auto_pad", ap), hx.AInts("strides", 2)})}, []*onnx.TensorProto{init("K3", 2, 2, 3)}, map[string]int{"y": 0}, nil, nil)
+	}
 	mkModel("Conv2D-stride=image", "x", []hx.DimSpec{N, fx(2), fx(3), fx(4)}, batchIO{[]int{1, 2, 3, 4}, 0}, nil, []*onnx.NodeProto{hx.Node("Conv", []string{"x", "K", "kb"}, []string{"y"}, []hx.Attr{hx.AInts("strides", 3, 4)})}, []*onnx.TensorProto{init("K", 2, 2, 2, 2), init("kb", 2)}, map[string]int{"y": 0}, nil, nil)
 	mkModel("Gemm-transA-free(N,3)xW+Softmax", "x", []hx.DimSpec{N, fx(3)}, batchIO{[]int{1, 3}, 0}, nil, []*onnx.NodeProto{hx.Node("Gemm", []string{"x", "W", "b"}, []string{"h"}, []hx.Attr{hx.AFloat("alpha", 0.5)}), hx.Node("Softmax", []string{"h"}, []string{"y"}, []hx.Attr{hx.AInt("axis", 1)})}, []*onnx.TensorProto{init("W", 3, 2), init("b", 2)}, map[string]int{"y": 0, "h": 0}, nil, nil)
 	// recurrent operators: batch axis 1
